@@ -37,7 +37,7 @@ MANIFEST = dict(
         "getBoxConstrainedDirection is additionally called directly on injected states (every coordinate on its lower bound / on its upper bound / inside, gradient component zero / inward / outward, narrow and wide boxes, 0..3 curvature pairs, exact ties) "
         "with an independent oracle (finite, x+d in the box, blocked coordinates do not move, d = 0 iff the projected gradient is 0, g'd < 0); "
         "the line searches are additionally called directly from arbitrary points along arbitrary (descent, ascent, zero, random) directions (backtracking compared with the model, all three types checked against the contracts value=f(point), gradient=grad(point), no increase when g'd<=0); "
-        "configuration axes crossed on every run: line-search type (also requested on box-constrained objectives, where init forces backtracking), initial bracket minInterval/maxInterval, L-BFGS history size, TrustRegionNewton initial radius and minImprovementRatio, all setters of SteepestDescent/Adam/Rprop; "
+        "object reuse: a used optimizer is initialised again (every optimizer; compared from then on with a brand-new instance and with the model's fresh init: init must reset step sizes, moments, counters, history, Hessian approximation); configuration axes crossed on every run: line-search type (also requested on box-constrained objectives, where init forces backtracking), initial bracket minInterval/maxInterval, L-BFGS history size, TrustRegionNewton initial radius and minImprovementRatio, all setters of SteepestDescent/Adam/Rprop; "
         "per-step oracle on every run: value = f(point) bit for bit, finite, feasible (BoxConstraintHandler::isFeasible AND plain comparisons with the bounds), no increase for line-search methods and TRN, restored instance = uninterrupted twin; "
         "convergence oracle (numerical, tolerance 1e-6(1+||b||_inf) on the KKT residual x - clamp(x - g, l, u), which is the gradient without a box) after 300/400/1000 steps on strictly convex quadratics, "
         "for box-constrained L-BFGS on problems whose minimiser has active upper and lower bounds, from starting points inside, on faces and in corners; "
@@ -45,7 +45,7 @@ MANIFEST = dict(
   note=TRUST + "monotonicity over whole runs is proved for BFGS only; for CG and L-BFGS only the one-step statement under the hypothesis that the direction is a non-ascent direction "
        "(not provable for the C++ CG restart branch d := d - g, nor for Dai-Yuan CG with an Armijo-only line search; the L-BFGS two-loop recursion is modelled and tied but its positive definiteness is not proved, "
        "so box_direction_descent/nonzero carry p0'Bp0 > 0 and p0'B^-1 p0 > 0 as hypotheses; multB (compact representation, BLAS) is a parameter of the model, not modelled); "
-       "the box-direction theorems are about the variant of the function in the unrepaired tree; the repaired variants (clipping by the sign of the direction, scaled Cauchy step) are modelled and tied bit for bit but have no theorems yet; "
+       "the repaired variants of the box direction (clipping by the sign of the direction, scaled Cauchy step; selected from the source text by translate/lbfgs_box.py) are modelled, tied bit for bit and have their own theorems: box_direction_feasible_repaired (no touching hypothesis, no hypothesis on the matrices), box_direction_descent_repaired, box_direction_nonzero_repaired; "
        "only exercised by the correspondence / harness oracle (not theorems): dlinmin and wolfecubic line searches (contracts LSSound/LSNoIncrease are hypotheses, checked per step on the real code), "
        "TrustRegionNewton (oracle only: value=f(point), finite, no increase, resume), finiteness, convergence on strictly convex quadratics (numerical oracle inside the harness, tolerance as stated). "
        "Open findings on the unpatched tree (known_findings.json, findings_proposed/C10.md): F11, F-C10-12 (dog-leg ignores a bound at distance 0: infeasible direction / 'internal error'), "
@@ -134,7 +134,12 @@ def gen_scalar_case(r, maxsteps):
     oname, oline = gen_scalar_opt(r, box, kind)
     ops.append(oline)
     ops.append("init " + nums(gen_x0(r, n, box, small=(kind[0] == "rosen"))))
-    return ops + gen_tail(r, r.range(1, maxsteps))
+    ops += gen_tail(r, r.range(1, maxsteps))
+    if r.chance(1, 4):
+        # object reuse: the used optimizer is initialised again from another starting point (init must reset everything)
+        ops.append("init " + nums(gen_x0(r, n, box, small=(kind[0] == "rosen"))))
+        ops += gen_tail(r, r.range(1, maxsteps))
+    return ops
 
 
 def gen_tail(r, nsteps, nsave=None):
@@ -217,7 +222,13 @@ def gen_ls_case(r, maxsteps, converge=False):
     ops.append(ls_opt_line(r, kind, ls))
     ops.append("init " + nums(gen_x0(r, n, box, small=(okind[0] == "rosen"))))
     nsteps = maxsteps if converge else r.range(1, maxsteps)
+    if converge and r.chance(1, 3):
+        # convergence from a re-initialised, used instance
+        ops += ["step"] * r.range(1, 8) + ["init " + nums(gen_x0(r, n, box, small=False))]
     ops += gen_tail(r, nsteps, nsave=0 if converge else None)
+    if not converge and r.chance(1, 4):
+        ops.append("init " + nums(gen_x0(r, n, box, small=(okind[0] == "rosen"))))
+        ops += gen_tail(r, r.range(1, maxsteps))
     if converge:
         ops.append("converged " + fb(1e-6))
     return ops
